@@ -27,6 +27,7 @@ import (
 	"net/url"
 	"os"
 	"runtime"
+	"runtime/debug"
 	"strings"
 	"sync"
 	"sync/atomic"
@@ -64,6 +65,9 @@ type c11Case struct {
 	Gz      int        `json:"gz,omitempty"`      // long/conc: 0 plain, 1 gzip
 	Barrier bool       `json:"barrier,omitempty"` // conc: rendezvous of all requests inside their 2nd Read (after the copy)
 	G       [][]c11Req `json:"g,omitempty"`       // conc: per goroutine its successive requests
+	Trunc   bool       `json:"trunc,omitempty"`   // long + gz: the gzip payload is cut short
+	GzSeq   bool       `json:"gzseq,omitempty"`   // conc + gate: first a good gzip request, then one with a bad gzip header, then g[0] (blocked in In) and g[1], all gzip
+	GzMode  int        `json:"gzmode,omitempty"`  // conc: 1..3 = how g[0]'s body is compressed (3: one gzip member per read chunk)
 	GateK   int        `json:"gate_k,omitempty"`  // conc: In blocks at the k-th call of g[0]'s request (-1: its last call); g[1..] are served meanwhile
 	Only    string     `json:"only,omitempty"`    // replay: restrict serial variants ("plain"/"gzip")
 }
@@ -200,7 +204,11 @@ const (
 	c11Nil = iota
 	c11EOF
 	c11Err
+	c11UEOF // io.ErrUnexpectedEOF: what net/http reports for a body shorter than its Content-Length
 )
+
+// the body was not delivered completely (only io.EOF ends a body cleanly)
+func c11ErrEnd(end string) bool { return end == "err" || end == "ueof" || end == "ueofd" }
 
 type c11Read struct {
 	n   int
@@ -223,6 +231,8 @@ func c11ErrOf(k int) error {
 		return io.EOF
 	case c11Err:
 		return c11ErrTransport
+	case c11UEOF:
+		return io.ErrUnexpectedEOF
 	}
 	return nil
 }
@@ -273,14 +283,21 @@ func c11Script(sizes []int, end string, zr bool) ([]c11Read, error) {
 		if i == len(sizes)-1 && end == "with" {
 			e = c11EOF
 		}
+		if i == len(sizes)-1 && end == "ueofd" {
+			e = c11UEOF
+		}
 		s = append(s, c11Read{n, e})
 	}
-	if zr && end != "with" {
+	if zr && end != "with" && end != "ueofd" {
 		s = append(s, c11Read{0, c11Nil})
 	}
 	if end == "err" {
 		s = append(s, c11Read{0, c11Err})
 		return s, c11ErrTransport
+	}
+	if end == "ueof" || end == "ueofd" {
+		s = append(s, c11Read{0, c11UEOF})
+		return s, io.ErrUnexpectedEOF
 	}
 	s = append(s, c11Read{0, c11EOF})
 	return s, io.EOF
@@ -364,14 +381,16 @@ func c11Lines(exp [][]int, scale int, a c11Alpha) []string {
 // ---------------------------------------------------------------------------------- gzip
 
 type c11Gz struct {
-	buf bytes.Buffer
-	w   *kgzip.Writer
+	buf    bytes.Buffer
+	w      *kgzip.Writer
+	bounds []int // offsets at which a gzip member ends and the next begins (a prefix cut there is a VALID shorter stream)
 }
 
 // compress body; chunk boundaries (decompressed) are flush points (mode 0), ignored (mode 1), or member
 // boundaries of a multi-member stream (mode 2)
 func (g *c11Gz) compress(body []byte, sizes []int, mode int) []byte {
 	g.buf.Reset()
+	g.bounds = g.bounds[:0]
 	if g.w == nil {
 		g.w, _ = kgzip.NewWriterLevel(&g.buf, kgzip.BestSpeed)
 	} else {
@@ -389,12 +408,27 @@ func (g *c11Gz) compress(body []byte, sizes []int, mode int) []byte {
 			_ = g.w.Flush()
 		case 2:
 			_ = g.w.Close()
+			g.bounds = append(g.bounds, g.buf.Len())
 			g.w.Reset(&g.buf)
 		}
 	}
 	_, _ = g.w.Write(body[pos:])
 	_ = g.w.Close()
 	return append([]byte(nil), g.buf.Bytes()...)
+}
+
+// where to cut a gzip stream: class 0 inside the 10-byte header, 1 inside the deflate data, 2 inside the 8-byte trailer
+func c11GzCut(n, class, salt int) (cut, cls int) {
+	if class == 1 && n <= 18 {
+		class = 2
+	}
+	switch class {
+	case 0:
+		return salt % 10, 0
+	case 1:
+		return 10 + (salt*7)%(n-18), 1
+	}
+	return n - 8 + salt%8, 2
 }
 
 // transport sizes for a compressed stream of length n, derived from the case's own split
@@ -546,6 +580,16 @@ type c11Stats struct {
 	BarrierMiss   int `json:"conc_barrier_timeouts"`
 	DistinctSids  int `json:"conc_max_distinct_source_ids_in_round"`
 	SidReuse      int `json:"conc_source_id_reused_by_later_request"`
+	UeofRequests     int    `json:"requests_ending_with_io_ErrUnexpectedEOF"`
+	TruncRequests    int    `json:"requests_with_truncated_gzip_payload_and_clean_eof"`
+	Trunc200AllLines int    `json:"truncated_gzip_acknowledged_with_all_lines_handed_over"`
+	GzCutHeader      int    `json:"gzip_payload_cut_inside_header"`
+	GzCutData        int    `json:"gzip_payload_cut_inside_deflate_data"`
+	GzCutTrailer     int    `json:"gzip_payload_cut_inside_trailer"`
+	GzSeqRuns        int    `json:"gzseq_runs"`
+	GzSeqWarmOK      int    `json:"gzseq_good_request_200"`
+	GzSeqBad400      int    `json:"gzseq_bad_header_request_not_200"`
+	GzSeqPooled      int    `json:"gzseq_pool_held_a_reader_after_bad_header"`
 	GateCases     int `json:"gate_cases"`
 	GateRuns      int `json:"gate_runs"`
 	GateFired     int `json:"gate_in_blocked_while_other_request_served"`
@@ -699,6 +743,7 @@ type c11Variant struct {
 	scale int
 	unlim bool
 	alpha c11Alpha
+	trunc bool // gzip only: the payload is cut short (header / deflate data / trailer) although the transport ends with a clean io.EOF
 }
 
 // run the successive requests of one case on one plugin; returns the mismatches
@@ -714,10 +759,23 @@ func (w *c11Worker) runSeq(pl *c11Plug, c *c11Case, v c11Variant, count bool) (m
 			sizes = []int{len(body)}
 		}
 		wireSizes := sizes
+		truncated, cutClass := false, -1
 		if v.gz {
 			wire = w.gz.compress(body, sizes, (c.ID+ri)%3)
-			if r.End == "err" && len(wire) > 4 {
+			switch {
+			case r.End == "err" && len(wire) > 4:
 				wire = wire[:len(wire)-4] // the error hits before the stream is complete
+			case r.End == "ueof" || r.End == "ueofd" || v.trunc && !c11ErrEnd(r.End):
+				// a real truncated gzip payload; with v.trunc the transport even ends cleanly (a well-formed HTTP request)
+				var cut int
+				cut, cutClass = c11GzCut(len(wire), (c.ID/2+ri)%3, c.ID+ri)
+				for _, b := range w.gz.bounds {
+					if cut == b { // exactly between two members: not a truncation; cut into the next member's header instead
+						cut++
+					}
+				}
+				wire = wire[:cut]
+				truncated = !c11ErrEnd(r.End)
 			}
 			wireSizes = c11GzSizes(len(wire), sizes, (c.ID/3+ri)%3)
 		}
@@ -749,8 +807,19 @@ func (w *c11Worker) runSeq(pl *c11Plug, c *c11Case, v c11Variant, count bool) (m
 		}
 		res := pl.serve(b, v.gz)
 		calls := pl.rec.slice(res.start, res.end)
-		prevFailed = r.End == "err"
+		prevFailed = c11ErrEnd(r.End) || truncated
 		if count {
+			switch cutClass {
+			case 0:
+				w.st.GzCutHeader++
+			case 1:
+				w.st.GzCutData++
+			case 2:
+				w.st.GzCutTrailer++
+			}
+			if r.End == "ueof" || r.End == "ueofd" {
+				w.st.UeofRequests++
+			}
 			if res.status == http.StatusOK {
 				w.st.OK200++
 			} else {
@@ -766,7 +835,24 @@ func (w *c11Worker) runSeq(pl *c11Plug, c *c11Case, v c11Variant, count bool) (m
 			mms = append(mms, mk("panic", ""))
 			continue
 		}
-		if r.End == "err" {
+		if truncated {
+			// the gzip payload is cut short: there is no complete decompressed body.  A 200 is a violation unless every
+			// line of the body was nevertheless handed over (possible when only the trailer is damaged)
+			if count {
+				w.st.TruncRequests++
+			}
+			if res.status == http.StatusOK {
+				if c11Equal(calls, want) {
+					if count {
+						w.st.Trunc200AllLines++
+					}
+				} else {
+					mms = append(mms, mk("ok_on_truncated_gzip", fmt.Sprintf("payload cut inside the %s", [...]string{"header", "deflate data", "trailer"}[cutClass])))
+				}
+			}
+			continue
+		}
+		if c11ErrEnd(r.End) {
 			// the transport failed before the end of the body: the request must not be acknowledged
 			if count {
 				w.st.ErrRequests++
@@ -813,6 +899,7 @@ func (w *c11Worker) run(c *c11Case) {
 		}
 		if c.Only != "plain" {
 			variants = append(variants, c11Variant{name: "gzip", gz: true, scale: 1, alpha: c11Small})
+			variants = append(variants, c11Variant{name: "gzip-truncated", gz: true, scale: 1, alpha: c11Small, trunc: true})
 		}
 	case "long":
 		w.st.LongCases++
@@ -820,7 +907,10 @@ func (w *c11Worker) run(c *c11Case) {
 		if c.Gz == 1 {
 			name = "long-gzip"
 		}
-		variants = append(variants, c11Variant{name: name, gz: c.Gz == 1, scale: c.Scale, unlim: c.Unlim, alpha: c11Long})
+		if c.Trunc && c.Gz == 1 {
+			name = "long-gzip-truncated"
+		}
+		variants = append(variants, c11Variant{name: name, gz: c.Gz == 1, scale: c.Scale, unlim: c.Unlim, alpha: c11Long, trunc: c.Trunc && c.Gz == 1})
 	}
 	pl := w.plugs[c.ID%4]
 	for _, v := range variants {
@@ -869,7 +959,7 @@ func c11RunConc(pl *c11Plug, c *c11Case, st *c11Stats, barrierOff *int32) (mms [
 		alpha := c11ConcAlpha(g)
 		for j := range c.G[g] {
 			r := &c.G[g][j]
-			cr := &c11ConcReq{g: g, j: j, r: r, alpha: alpha, want: c11Lines(r.Exp, scale, alpha), gz: c.Gz == 1 && (g+j)%2 == 0 && !useBarrier}
+			cr := &c11ConcReq{g: g, j: j, r: r, alpha: alpha, want: c11Lines(r.Exp, scale, alpha), gz: c.GzSeq || c.Gz == 1 && (g+j)%2 == 0 && !useBarrier}
 			for _, l := range cr.want {
 				if l == "" {
 					cr.emptyLines++
@@ -882,6 +972,7 @@ func c11RunConc(pl *c11Plug, c *c11Case, st *c11Stats, barrierOff *int32) (mms [
 	}
 	pl.rec.reset()
 	var serveAll func(g int)
+	var armGate, gateFn, prepare func()
 	gated := c.GateK != 0
 	othersDone := make(chan struct{})
 	var fired, stuck, probeHit int32
@@ -894,7 +985,10 @@ func c11RunConc(pl *c11Plug, c *c11Case, st *c11Stats, barrierOff *int32) (mms [
 		if runtime.GOMAXPROCS(0) == 1 {
 			st.GateProcs1++
 		}
-		pl.rec.arm(k, func() {
+		armGate = func() {
+			pl.rec.arm(k, gateFn)
+		}
+		gateFn = func() {
 			// the In call of g[0]'s request is blocked (the pipeline has not copied the bytes yet).
 			// The other requests are started from here so that they most likely run on the same P (sync.Pool
 			// hands a buffer over through the P-local slot); the probe pool measures whether that worked.
@@ -917,7 +1011,14 @@ func c11RunConc(pl *c11Plug, c *c11Case, st *c11Stats, barrierOff *int32) (mms [
 			case <-time.After(10 * time.Second): // e.g. requests serialised by a lock held across In: no window, no verdict
 				atomic.StoreInt32(&stuck, 1)
 			}
-		})
+		}
+	}
+	var preMM []*c11Mismatch
+	if gated && c.GzSeq {
+		// sync.Pool drops its items on GC: keep the collector out of the sequence
+		defer debug.SetGCPercent(debug.SetGCPercent(-1))
+		st.GzSeqRuns++
+		prepare = func() { preMM = c11GzSeqPrepare(pl, c, st) }
 	}
 	serveAll = func(g int) {
 		func() {
@@ -926,7 +1027,11 @@ func c11RunConc(pl *c11Plug, c *c11Case, st *c11Stats, barrierOff *int32) (mms [
 				sizes := c11ByteSizes(cr.r, scale)
 				wire, wireSizes := body, sizes
 				if cr.gz {
-					wire = gzs[g].compress(body, sizes, (c.ID+cr.j)%3)
+					mode := (c.ID + cr.j) % 3
+					if g == 0 && c.GzMode > 0 {
+						mode = c.GzMode - 1
+					}
+					wire = gzs[g].compress(body, sizes, mode)
 					wireSizes = c11GzSizes(len(wire), sizes, (c.ID/3+cr.j)%3)
 				}
 				script, final := c11Script(wireSizes, cr.r.End, cr.r.Zr)
@@ -958,10 +1063,17 @@ func c11RunConc(pl *c11Plug, c *c11Case, st *c11Stats, barrierOff *int32) (mms [
 		wg.Add(1)
 		go func(g int) {
 			defer wg.Done()
+			if g == 0 && gated {
+				if prepare != nil {
+					prepare() // on this goroutine: what it puts into a sync.Pool is found by its next Get
+				}
+				armGate()
+			}
 			serveAll(g)
 		}(g)
 	}
 	wg.Wait()
+	mms = append(mms, preMM...)
 	if gated {
 		if fired != 0 {
 			select {
@@ -1003,6 +1115,9 @@ func c11RunConc(pl *c11Plug, c *c11Case, st *c11Stats, barrierOff *int32) (mms [
 		variant := fmt.Sprintf("G=%d barrier=%v", G, useBarrier)
 		if gated {
 			variant = fmt.Sprintf("gate k=%d procs=%d", c.GateK, runtime.GOMAXPROCS(0))
+			if c.GzSeq {
+				variant = "gzseq " + variant
+			}
 			for _, cl := range log {
 				if cl.changed {
 					detail += " [the bytes of an event changed while its In call was blocked: " + c11Trim([]string{cl.entry})[0] + " -> " + c11Trim([]string{cl.data})[0] + "]"
@@ -1163,6 +1278,60 @@ func c11RunConc(pl *c11Plug, c *c11Case, st *c11Stats, barrierOff *int32) (mms [
 			}
 		}
 	}
+	return mms
+}
+
+// Steps 1 and 2 of the gzip sequence, and the white-box look into the gzip reader pool.
+//  1. a good gzip request: afterwards the pool holds a reader;
+//  2. a request that says Content-Encoding: gzip but whose body has no gzip header: Reset of the pooled reader fails;
+//  3. (the caller) two overlapping gzip requests.
+// Between 2 and 3 the harness itself acts as two concurrent holders: it takes readers out of the pool without putting
+// any back; the pool must not hand out the same *gzip.Reader twice.  Everything taken is put back in reverse order.
+func c11GzSeqPrepare(pl *c11Plug, c *c11Case, st *c11Stats) (mms []*c11Mismatch) {
+	var gz c11Gz
+	alpha := c11ConcAlpha(7)
+	warm := c11Bytes([]int{1, 2, 0, 2, 1, 0}, 1, alpha)
+	wire := gz.compress(warm, []int{len(warm)}, 1)
+	script, final := c11Script([]int{len(wire)}, "after", false)
+	res := pl.serve(&c11Body{data: wire, script: script, final: final}, true)
+	if res.status == http.StatusOK {
+		st.GzSeqWarmOK++
+	}
+	bad := []byte("this body is not gzipped at all\n")
+	script, final = c11Script([]int{len(bad)}, "after", false)
+	res = pl.serve(&c11Body{data: bad, script: script, final: final}, true)
+	if res.status != http.StatusOK {
+		st.GzSeqBad400++
+	}
+	var held []any
+	for i := 0; i < 8; i++ {
+		x := pl.p.gzipReaderPool.Get()
+		if x == nil {
+			break
+		}
+		held = append(held, x)
+	}
+	if len(held) > 0 {
+		st.GzSeqPooled++
+	}
+	dup := false
+	for i := range held {
+		for j := i + 1; j < len(held); j++ {
+			if held[i] == held[j] {
+				dup = true
+			}
+		}
+	}
+	for i := len(held) - 1; i >= 0; i-- {
+		pl.p.gzipReaderPool.Put(held[i])
+	}
+	if dup {
+		mms = append(mms, &c11Mismatch{Kind: "gzip_reader_pooled_twice", Fam: "conc",
+			Variant: fmt.Sprintf("gzseq gate k=%d procs=%d", c.GateK, runtime.GOMAXPROCS(0)), Cfg: pl.cfg,
+			Detail: fmt.Sprintf("after a good gzip request and one with a bad gzip header the pool handed the same *gzip.Reader to two holders (%d objects taken without a Put in between)", len(held)),
+			Case:   c})
+	}
+	pl.rec.reset()
 	return mms
 }
 
